@@ -1979,22 +1979,36 @@ impl ConfigState {
             }
         }
 
-        for ((cluster_id, backend_id), res) in diff_map(
-            self.backends.iter().flat_map(|(cluster_id, v)| {
-                v.iter()
-                    .map(move |backend| ((cluster_id, &backend.backend_id), backend))
-            }),
-            other.backends.iter().flat_map(|(cluster_id, v)| {
-                v.iter()
-                    .map(move |backend| ((cluster_id, &backend.backend_id), backend))
-            }),
+        // A backend's identity in the state is (cluster_id, backend_id, address)
+        // (see add_backend / remove_backend): the same backend_id may live at
+        // several addresses. Key the merge-join on that full identity, through
+        // sorted maps, so every such backend is diffed on its own.
+        fn keyed(
+            backends: &BTreeMap<ClusterId, Vec<Backend>>,
+        ) -> BTreeMap<(&ClusterId, &String, SocketAddr), &Backend> {
+            backends
+                .iter()
+                .flat_map(|(cluster_id, v)| {
+                    v.iter().map(move |backend| {
+                        ((cluster_id, &backend.backend_id, backend.address), backend)
+                    })
+                })
+                .collect()
+        }
+        let (my_backends, other_backends) = (keyed(&self.backends), keyed(&other.backends));
+        for ((cluster_id, backend_id, address), res) in diff_map(
+            my_backends.iter().map(|(k, v)| (*k, *v)),
+            other_backends.iter().map(|(k, v)| (*k, *v)),
         ) {
             match res {
                 DiffResult::Added => {
                     let backend = other
                         .backends
                         .get(cluster_id)
-                        .and_then(|v| v.iter().find(|b| &b.backend_id == backend_id))
+                        .and_then(|v| {
+                            v.iter()
+                                .find(|b| &b.backend_id == backend_id && b.address == address)
+                        })
                         .unwrap();
                     v.push(RequestType::AddBackend(backend.clone().to_add_backend()).into());
                 }
@@ -2002,7 +2016,10 @@ impl ConfigState {
                     let backend = self
                         .backends
                         .get(cluster_id)
-                        .and_then(|v| v.iter().find(|b| &b.backend_id == backend_id))
+                        .and_then(|v| {
+                            v.iter()
+                                .find(|b| &b.backend_id == backend_id && b.address == address)
+                        })
                         .unwrap();
 
                     v.push(
@@ -2018,7 +2035,10 @@ impl ConfigState {
                     let backend = self
                         .backends
                         .get(cluster_id)
-                        .and_then(|v| v.iter().find(|b| &b.backend_id == backend_id))
+                        .and_then(|v| {
+                            v.iter()
+                                .find(|b| &b.backend_id == backend_id && b.address == address)
+                        })
                         .unwrap();
 
                     v.push(
@@ -2033,7 +2053,10 @@ impl ConfigState {
                     let backend = other
                         .backends
                         .get(cluster_id)
-                        .and_then(|v| v.iter().find(|b| &b.backend_id == backend_id))
+                        .and_then(|v| {
+                            v.iter()
+                                .find(|b| &b.backend_id == backend_id && b.address == address)
+                        })
                         .unwrap();
                     v.push(RequestType::AddBackend(backend.clone().to_add_backend()).into());
                 }
